@@ -13,6 +13,7 @@ import (
 )
 
 type e6Profile struct {
+	name     string // unit name, default TestVF_<prop>_Cluster
 	prop     string
 	family   map[string]bool
 	prefixes []string
@@ -83,7 +84,10 @@ func genPlan(t *rapid.T, tune func(t *rapid.T, p *Plan)) Plan {
 }
 
 func runE6(t *testing.T, prof e6Profile) {
-	st := vfhelp.NewStats("TestVF_"+prof.prop+"_Cluster",
+	if prof.name == "" {
+		prof.name = "TestVF_" + prof.prop + "_Cluster"
+	}
+	st := vfhelp.NewStats(prof.name,
 		"E6 nhcluster: generated client programs x fault plan (partitions, loss, power cuts with unsynced data lost, restarts, "+
 			"leader transfers, snapshots, replica stop/start) on real NodeHosts; "+prof.rule+"; distinct = hash of the plan")
 	defer st.Flush()
@@ -164,12 +168,73 @@ func runE6(t *testing.T, prof e6Profile) {
 
 var famE6C01 = set("linearizability-violated", "write-applied-twice", "replicas-applied-different-entries")
 var famE6C04 = set("term-not-durable", "vote-not-durable", "ack-not-durable", "commit-advertised-before-durable",
-	"two-votes-one-term", "recovered-term-lower", "restart-failed", "linearizability-violated", "completed-request-never-applied")
+	"two-votes-one-term", "recovered-term-lower", "restart-failed", "restart-panics-commit-outside-log-range", "linearizability-violated", "completed-request-never-applied")
 var famE6C11 = set("call-after-close", "exclusive-calls-overlap", "update-index-not-increasing", "ondisk-update-at-or-below-open-index",
 	"write-applied-twice", "replicas-applied-different-entries", "lookup-overlaps-update", "lookup-overlaps-recoverfromsnapshot",
 	"lookup-overlaps-close", "savesnapshot-overlaps-update", "savesnapshot-overlaps-recoverfromsnapshot", "savesnapshot-overlaps-close",
 	"update-overlaps-lookup", "completed-request-never-applied", "savesnapshot-overlaps-close")
 var famE6C12 = set("completed-with-foreign-result", "dropped-request-applied", "completed-request-never-applied", "no-terminal-result", "two-results")
+
+var famE6C02 = set("replicas-applied-different-entries", "update-index-not-increasing", "write-applied-twice",
+	"replica-state-differs-at-same-index", "ondisk-update-at-or-below-open-index", "snapshot-content-not-at-snapshot-index")
+var famE6C06 = set("stale-read", "read-returned-unapplied-value", "linearizability-violated", "read-no-terminal-result")
+
+// C02 end to end: the Update streams and the final user state of real replicas
+// agree under snapshots, lagging followers, restarts and power cuts.
+func TestVF_C02_Cluster(t *testing.T) {
+	runE6(t, e6Profile{prop: "C02", family: famE6C02,
+		tune: func(t *rapid.T, p *Plan) {
+			p.ReadPct = 15
+			if p.SnapEntries == 0 || vfhelp.Pick(t, "snap5", 1) == 1 {
+				p.SnapEntries = 5
+			}
+			if p.WidenUs == 0 {
+				p.WidenUs = 100 + vfhelp.PickN(t, "widenus2", 500)
+			}
+			p.OpsPerCli += 8
+			// a follower that lags behind a compacted log, user requested snapshots and a
+			// replica rebuilt from its snapshot
+			a := vfhelp.Pick(t, "lag", 2)
+			p.Faults = append(p.Faults,
+				Fault{Kind: FSnapshot, A: vfhelp.Pick(t, "ss", 2), AfterMs: 5 + vfhelp.PickN(t, "ssafter", 30)},
+				Fault{Kind: FIsolate, A: a, AfterMs: 5 + vfhelp.PickN(t, "lagafter", 30)},
+				Fault{Kind: FSnapshot, A: a + 1, AfterMs: 20 + vfhelp.PickN(t, "ss2after", 40)},
+				Fault{Kind: FHeal, AfterMs: 10 + vfhelp.PickN(t, "healafter", 40)},
+				Fault{Kind: FStopReplica, A: vfhelp.Pick(t, "sr", 2), B: vfhelp.Pick(t, "srb", 3), AfterMs: 10 + vfhelp.PickN(t, "srafter", 40)})
+			if vfhelp.Pick(t, "pc", 1) == 1 {
+				p.Faults = append(p.Faults, Fault{Kind: FPowerCut, A: vfhelp.Pick(t, "pch", 2), AfterMs: 10 + vfhelp.PickN(t, "pcafter", 40)},
+					Fault{Kind: FRestart, AfterMs: 20 + vfhelp.PickN(t, "rsafter", 60)})
+			}
+		},
+		rule: "non-trivial = a replica was rebuilt from a snapshot (restart, stop/start or InstallSnapshot to a lagging follower) and the final states of >= 2 replicas were compared at the same applied index",
+		nontriv: func(res *Result) bool {
+			return res.Flags["final-states-compared"] > 0 && res.Rec.CallCount["RecoverFromSnapshot"] > 0
+		}})
+}
+
+// C06 end to end: many overlapping ReadIndex requests (local and via followers /
+// non-voting replicas) racing with writes, leader changes and partitions.
+func TestVF_C06_Cluster(t *testing.T) {
+	runE6(t, e6Profile{prop: "C06", family: famE6C06,
+		tune: func(t *rapid.T, p *Plan) {
+			p.ReadPct = 55 + vfhelp.PickN(t, "readpct2", 25)
+			p.AsyncPct = 75
+			p.Clients = 4 + vfhelp.PickN(t, "clients2", 3)
+			p.Keys = 1 + vfhelp.Pick(t, "keys2", 1)
+			if p.NetDelayMs == 0 && vfhelp.Pick(t, "nd", 1) == 1 {
+				p.NetDelayMs = 1 + vfhelp.PickN(t, "netdelayms2", 5)
+			}
+			if p.WidenUs == 0 && vfhelp.Pick(t, "wd", 1) == 1 {
+				// slow Update calls: followers apply late, reads must wait for them
+				p.WidenUs = 200 + vfhelp.PickN(t, "widenus2", 800)
+			}
+			p.Faults = append(p.Faults, Fault{Kind: FTransfer, A: vfhelp.Pick(t, "tr", 2), B: vfhelp.Pick(t, "trb", 2), AfterMs: 10 + vfhelp.PickN(t, "trafter", 40)})
+		},
+		rule: "non-trivial = >= 3 reads completed through ReadIndex, at least one on a host that was not the leader's, interleaved with completed writes on the same keys",
+		nontriv: func(res *Result) bool {
+			return res.Flags["read-completed"] >= 3 && res.Flags["write-completed"] >= 2 && res.Flags["lin-checked"] > 0
+		}})
+}
 
 func TestVF_C01_Cluster(t *testing.T) {
 	runE6(t, e6Profile{prop: "C01", family: famE6C01,
@@ -220,6 +285,18 @@ func TestVF_C11_Cluster(t *testing.T) {
 			}
 			p.Faults = append(p.Faults, Fault{Kind: FStopReplica, A: vfhelp.Pick(t, "sr", 2), B: vfhelp.Pick(t, "srb", 3), AfterMs: 10 + vfhelp.PickN(t, "srafter", 40)},
 				Fault{Kind: FSnapshot, A: vfhelp.Pick(t, "ss", 2), AfterMs: 5 + vfhelp.PickN(t, "ssafter", 30)})
+			// local readers hammering a replica that lags, is healed and then restores a
+			// snapshot sent by the leader
+			p.StaleReaders = 1 + vfhelp.Pick(t, "stalereaders", 1)
+			if vfhelp.Pick(t, "lagrecover", 1) == 1 {
+				a := vfhelp.Pick(t, "lag", 2)
+				p.SnapEntries = 5
+				p.SlowRecoverMs = 2 + vfhelp.PickN(t, "slowrecoverms", 10)
+				p.OpsPerCli += 10
+				p.Faults = append([]Fault{
+					{Kind: FIsolate, A: a, AfterMs: 5 + vfhelp.PickN(t, "lagafter", 20)},
+					{Kind: FHeal, AfterMs: 40 + vfhelp.PickN(t, "healafter", 60)}}, p.Faults...)
+			}
 			if vfhelp.Pick(t, "slowsnap", 1) == 1 {
 				p.SlowSnapMs = 10 + vfhelp.PickN(t, "slowsnapms", 40)
 				p.Faults = append(p.Faults, Fault{Kind: FCloseDuringSnapshot, A: vfhelp.Pick(t, "cds", 2), AfterMs: 10 + vfhelp.PickN(t, "cdsafter", 40)})
@@ -227,7 +304,39 @@ func TestVF_C11_Cluster(t *testing.T) {
 		},
 		rule: "non-trivial = state machine calls really overlapped where allowed (Lookup/SaveSnapshot pending during Update), a replica was stopped with client reads in flight, or a NodeHost was closed while a snapshot call was in progress",
 		nontriv: func(res *Result) bool {
-			return res.Rec.OverlapLookupUpdate+res.Rec.OverlapSaveUpdate > 0 || res.Flags["replica-stopped"] > 0 || res.Flags["closed-during-snapshot"] > 0
+			return res.Rec.OverlapLookupUpdate+res.Rec.OverlapSaveUpdate > 0 || res.Flags["replica-stopped"] > 0 || res.Flags["closed-during-snapshot"] > 0 ||
+				(res.Rec.CallCount["RecoverFromSnapshot"] > 0 && res.Flags["stale-read-ok"] > 0)
+		}})
+}
+
+// The plain (non-concurrent) state machine part of C11: Lookup and SaveSnapshot
+// never overlap Update, RecoverFromSnapshot or Close. Local readers hammer every
+// replica while one of them lags behind a compacted log, is healed and restores
+// the snapshot streamed by the leader, is stopped, restarted or closed.
+func TestVF_C11_PlainSM(t *testing.T) {
+	runE6(t, e6Profile{name: "TestVF_C11_PlainSM", prop: "C11", family: famE6C11,
+		tune: func(t *rapid.T, p *Plan) {
+			p.Kind = KindRegular
+			p.NonVoting = false
+			p.Hosts = 3
+			p.SnapEntries = 5
+			p.ReadPct = 30
+			p.WidenUs = 50 + vfhelp.PickN(t, "widenus2", 300)
+			p.StaleReaders = 2
+			p.SlowRecoverMs = 2 + vfhelp.PickN(t, "slowrecoverms", 10)
+			p.Clients = 3 + vfhelp.PickN(t, "clients2", 3)
+			p.OpsPerCli = 20 + vfhelp.PickN(t, "ops2", 15)
+			a := vfhelp.Pick(t, "lag", 2)
+			if len(p.Faults) > 3 {
+				p.Faults = p.Faults[:3]
+			}
+			p.Faults = append([]Fault{
+				{Kind: FIsolate, A: a, AfterMs: 5 + vfhelp.PickN(t, "lagafter", 20)},
+				{Kind: FHeal, AfterMs: 60 + vfhelp.PickN(t, "healafter", 80)}}, p.Faults...)
+		},
+		rule: "non-trivial = a running replica with local readers active restored a snapshot (RecoverFromSnapshot called while StaleRead calls succeed), or Lookup/SaveSnapshot were pending during Update",
+		nontriv: func(res *Result) bool {
+			return res.Rec.CallCount["RecoverFromSnapshot"] > 0 && res.Flags["stale-read-ok"] > 0
 		}})
 }
 
